@@ -1,48 +1,53 @@
 import Percival.Driver.Loop
-import Percival.Model.NetbufRead
-import Percival.Model.NetbufWrite
-/-! `pmodel netbuf`: line protocol for netbuf_read.c / netbuf_write.c (driver code, not part of any theorem).
-The scripted kernel and `network_read`/`network_write`'s loops (the *environment* of the models) live
-here: kernel answers are turned into the transport completions the models take as events. -/
+import Percival.Model.NetbufStep
+/-! `pmodel netbuf`: line protocol for netbuf_read.c / netbuf_write.c.  Thin by construction: `parseOp` turns a
+line into a typed `Spec.NetbufMon.Op`, `Model.NetbufStep.stepOp` does everything else (the scripted kernel, the
+`network_read`/`network_write` loops, the harness' callback program), `render` prints its typed output. -/
 namespace Percival.Driver.Netbuf
-open Percival.Driver Percival.Spec.ByteStream Percival.Model.Netbuf
-open Percival.Model
+open Percival.Driver Percival.Spec.ByteStream Percival.Spec.NetbufMon Percival.Model.Netbuf
+open Percival.Model Percival.Model.NetbufStep
 
-inductive KAns where
-  | data (d : Bytes)
-  | eagain
-  | eof
-  | err
+/-! ## text → typed op (shared with `pmodel netbufmon`) -/
 
-inductive SAns where
-  | accept (n : Nat)
-  | eagain
-  | fail
+/-- bytes are given in hex, or as `seed len` of the caller's pattern -/
+def argBytes (pat : Bool) (args : List String) : Option Bytes :=
+  match pat, args with
+  | true, [seed, len] => do pure (patBytes (← seed.toNat?) (← len.toNat?))
+  | false, [h] => bytesOfHex h
+  | _, _ => none
 
-structure St where
-  r : NetbufRead.R := NetbufRead.init
-  w : NetbufWrite.W := NetbufWrite.init
-  rq : List KAns := []
-  wq : List SAns := []
-  wpos : Nat := 0          -- progress of the in-flight network_write
-  waitk : Nat := 0
-  loopJ : Nat := 0
-  loopK : Nat := 0
-  loopN : Nat := 0
-  wresv : Nat := 0
-  bad : Option String := none   -- the model left its contract: every later line says so
+def parseOp : List String → Option Op
+  | ["r_wait", k] => do pure (.rWait (← k.toNat?))
+  | ["r_loop", j, k, n] => do pure (.rLoop (← j.toNat?) (← k.toNat?) (← n.toNat?))
+  | ["r_peek"] => some .rPeek
+  | ["r_consume", j] => do pure (.rConsume (← j.toNat?))
+  | ["r_consume_upto", j] => do pure (.rConsumeUpto (← j.toNat?))
+  | ["r_cancel"] => some .rCancel
+  | "net_deliver" :: args => (argBytes false args).map .netDeliver
+  | "net_deliverp" :: args => (argBytes true args).map .netDeliver
+  | ["net_eagain"] => some .netEagain
+  | ["net_eof"] => some .netEof
+  | ["net_err"] => some .netErr
+  | ["net_accept", n] => do pure (.netAccept (← n.toNat?))
+  | ["net_weagain"] => some .netWeagain
+  | ["net_sendfail"] => some .netSendfail
+  | ["w_reserve", n] => do pure (.wReserve (← n.toNat?))
+  | "w_consume" :: args => (argBytes false args).map .wConsume
+  | "w_consumep" :: args => (argBytes true args).map .wConsume
+  | "w_write" :: args => (argBytes false args).map .wWrite
+  | "w_writep" :: args => (argBytes true args).map .wWrite
+  | ["spin"] => some .spin
+  | _ => none
 
-def fnv1a (b : Bytes) : UInt64 :=
-  b.foldl (fun h x => (h ^^^ x.toUInt64) * 0x100000001b3) 0xcbf29ce484222325
+/-! ## typed output → text -/
 
 def hex64 (n : UInt64) : String :=
   String.ofList ((List.range 16).map fun i => hexDigit ((n.toNat >>> (4 * (15 - i))) % 16))
 
-def fmtBytes (b : Bytes) (n : Nat) : String :=
-  if n = 0 then "-" else if n ≤ 64 then hexOfBytes b else s!"#{n}:{hex64 (fnv1a b)}"
-
-def patBytes (seed len : Nat) : Bytes :=
-  (List.range len).map fun i => UInt8.ofNat ((seed * 31 + i * 7 + i / 256) % 256)
+def showShown : Shown → String
+  | .none => "-"
+  | .hex b => hexOfBytes b
+  | .digest n h => s!"#{n}:{hex64 h}"
 
 def rl2 (r : NetbufRead.R) : String :=
   let p := match r.pending with
@@ -60,174 +65,35 @@ def wl2 (w : NetbufWrite.W) : String :=
   let q := if w.queue.isEmpty then "-" else ",".intercalate (w.queue.map fun wb => s!"{wb.datalen}/{wb.buflen}")
   s!"f={b01 w.failed} r={b01 w.reserved} c={c} q={q}"
 
-def resName {α : Type} : Res α → String
-  | .ok _ => "ok"
+def failName : Fail → String
   | .oob => "model-oob"
   | .abort => "model-abort"
   | .contract => "model-contract"
+  | .fuel => "model-fuel"
 
-def avail (r : NetbufRead.R) : Nat := r.datalen - r.bufpos
+def showRec : CbRec → String
+  | .succ a (some sh) => s!"0:{a}:{showShown sh}"
+  | .succ a none => s!"0:{a}:model-oob"
+  | .status v => toString v
 
-/-- the harness' `rcb`: record the status; on success under an `r_loop` program consume and wait again -/
-def appCallback (s : St) (status : Int) (recs : List String) : St × List String :=
-  if status == 0 then
-    let a := avail s.r
-    let shown := match NetbufRead.peek s.r with
-      | .ok b => let k := min s.waitk a; fmtBytes (b.take k) k
-      | _ => "model-oob"
-    let recs := recs ++ [s!"0:{a}:{shown}"]
-    if s.loopN > 0 then
-      if s.loopJ ≤ a then
-        match NetbufRead.consume s.r s.loopJ with
-        | .ok r1 =>
-          match NetbufRead.wait r1 s.loopK with
-          | .ok r2 => ({ s with r := r2, loopN := s.loopN - 1, waitk := s.loopK }, recs)
-          | e => ({ s with bad := some (resName e) }, recs)
-        | e => ({ s with bad := some (resName e) }, recs)
-      else ({ s with loopN := 0 }, recs)
-    else (s, recs)
-  else ({ s with loopN := 0 }, recs ++ [toString status])
+def render : Out → String
+  | .failed f => failName f
+  | .badOp => "bad-op"
+  | .contract => "contract"
+  | .ok => "ok"
+  | .okR r => s!"ok | {rl2 r}"
+  | .okW w => s!"ok | {wl2 w}"
+  | .peek n sh r => s!"peek {n} {showShown sh} | {rl2 r}"
+  | .okN n r => s!"ok {n} | {rl2 r}"
+  | .spin recs fails len sh used r w =>
+      let rs := if recs.isEmpty then "-" else ",".intercalate (recs.map showRec)
+      s!"spin r={rs} f={fails} peer={len}:{showShown sh} sa={used} | {rl2 r} ; {wl2 w}"
 
-/-- reader half of `spin`: immediate callbacks, then kernel answers while a transport read is outstanding -/
-partial def spinR (s : St) (recs : List String) : St × List String :=
-  if s.bad.isSome then (s, recs) else
-  match s.r.pending with
-  | .none => (s, recs)
-  | .immediate =>
-    match NetbufRead.callbackSuccess s.r with
-    | .ok (r, st) => let (s, recs) := appCallback { s with r } st recs; spinR s recs
-    | e => ({ s with bad := some (resName e) }, recs)
-  | .read =>
-    match s.rq with
-    | [] => (s, recs)
-    | .eagain :: rest => spinR { s with rq := rest } recs
-    | ans :: rest =>
-      let (ev, rq) : REv × List KAns := match ans with
-        | .data d =>
-          -- recv(fd, buf + datalen, buflen - datalen): the kernel hands over what fits
-          let space := s.r.buflen - s.r.datalen
-          if d.length ≤ space then (.data d, rest) else (.data (d.take space), .data (d.drop space) :: rest)
-        | .eof => (.eof, rest)
-        | _ => (.err, rest)
-      match NetbufRead.callbackRead s.r ev with
-      | .ok (r, some st) => let (s, recs) := appCallback { s with r, rq } st recs; spinR s recs
-      | .ok (r, none) => spinR { s with r, rq } recs
-      | e => ({ s with bad := some (resName e) }, recs)
+def step (s : NetbufStep.St) (toks : List String) : NetbufStep.St × String :=
+  match parseOp toks with
+  | some op => let r := stepOp s op; (r.1, render r.2)
+  | none => (s, "bad-op")
 
-/-- writer half of `spin`: `network_write`'s loop (minwrite = buflen) over the scripted `send` answers;
-returns what the peer received, the number of failure callbacks and the number of send answers used -/
-partial def spinW (s : St) (peer : Bytes) (fails used : Nat) : St × Bytes × Nat × Nat :=
-  if s.bad.isSome then (s, peer, fails, used) else
-  match s.w.curr, s.wq with
-  | some wb, ans :: rest =>
-    match ans with
-    | .eagain => spinW { s with wq := rest } peer fails (used + 1)
-    | .accept n =>
-      let m := min n (wb.datalen - s.wpos)
-      let peer := peer ++ (wb.buf.drop s.wpos).take m
-      let wpos := s.wpos + m
-      if wpos < wb.datalen then spinW { s with wq := rest, wpos } peer fails (used + 1)
-      else
-        match NetbufWrite.step s.w (.net (.done wpos)) with
-        | .ok (w, o) => spinW { s with w, wq := rest, wpos := 0 } peer (fails + (if o.failcb then 1 else 0)) (used + 1)
-        | e => ({ s with bad := some (resName e) }, peer, fails, used)
-    | .fail =>
-      match NetbufWrite.step s.w (.net (.fail s.wpos)) with
-      | .ok (w, o) => spinW { s with w, wq := rest, wpos := 0 } peer (fails + (if o.failcb then 1 else 0)) (used + 1)
-      | e => ({ s with bad := some (resName e) }, peer, fails, used)
-  | _, _ => (s, peer, fails, used)
-
-def argBytes (pat : Bool) (args : List String) : Option Bytes :=
-  match pat, args with
-  | true, [seed, len] => match seed.toNat?, len.toNat? with
-    | some s, some l => some (patBytes s l)
-    | _, _ => none
-  | false, [h] => bytesOfHex h
-  | _, _ => none
-
-def rOp (s : St) (res : Res NetbufRead.R) : St × String :=
-  match res with
-  | .ok r => ({ s with r }, s!"ok | {rl2 r}")
-  | e => ({ s with bad := some (resName e) }, resName e)
-
-def wOp (s : St) (res : Res NetbufWrite.W) : St × String :=
-  match res with
-  | .ok w => ({ s with w }, s!"ok | {wl2 w}")
-  | e => ({ s with bad := some (resName e) }, resName e)
-
-def step (s : St) (toks : List String) : St × String :=
-  if let some b := s.bad then (s, b) else
-  match toks with
-  | ["r_wait", k] =>
-    match k.toNat? with
-    | some k =>
-      if s.r.pending ≠ .none then (s, "contract") else
-      rOp { s with waitk := k, loopN := 0 } (NetbufRead.wait s.r k)
-    | none => (s, "bad-op")
-  | ["r_loop", j, k, n] =>
-    match j.toNat?, k.toNat?, n.toNat? with
-    | some j, some k, some n =>
-      if s.r.pending ≠ .none then (s, "contract") else
-      rOp { s with waitk := k, loopJ := j, loopK := k, loopN := n } (NetbufRead.wait s.r k)
-    | _, _, _ => (s, "bad-op")
-  | ["r_peek"] =>
-    match NetbufRead.peek s.r with
-    | .ok b => (s, s!"peek {avail s.r} {fmtBytes b (avail s.r)} | {rl2 s.r}")
-    | e => ({ s with bad := some (resName e) }, resName e)
-  | ["r_consume", j] =>
-    match j.toNat? with
-    | some j =>
-      if s.r.pending ≠ .none || j > avail s.r then (s, "contract") else rOp s (NetbufRead.consume s.r j)
-    | none => (s, "bad-op")
-  | ["r_consume_upto", j] =>
-    match j.toNat? with
-    | some j =>
-      if s.r.pending ≠ .none then (s, "contract") else
-      let j := min j (avail s.r)
-      match NetbufRead.consume s.r j with
-      | .ok r => ({ s with r }, s!"ok {j} | {rl2 r}")
-      | e => ({ s with bad := some (resName e) }, resName e)
-    | none => (s, "bad-op")
-  | ["r_cancel"] => rOp { s with loopN := 0 } (.ok (NetbufRead.cancel s.r))
-  | "net_deliver" :: args | "net_deliverp" :: args =>
-    match argBytes (toks.head! == "net_deliverp") args with
-    | some d => if d.isEmpty then (s, "bad-op") else ({ s with rq := s.rq ++ [.data d] }, "ok")
-    | none => (s, "bad-op")
-  | ["net_eagain"] => ({ s with rq := s.rq ++ [.eagain] }, "ok")
-  | ["net_eof"] => ({ s with rq := s.rq ++ [.eof] }, "ok")
-  | ["net_err"] => ({ s with rq := s.rq ++ [.err] }, "ok")
-  | ["net_accept", n] =>
-    match n.toNat? with
-    | some n => if n = 0 then (s, "bad-op") else ({ s with wq := s.wq ++ [.accept n] }, "ok")
-    | none => (s, "bad-op")
-  | ["net_weagain"] => ({ s with wq := s.wq ++ [.eagain] }, "ok")
-  | ["net_sendfail"] => ({ s with wq := s.wq ++ [.fail] }, "ok")
-  | ["w_reserve", n] =>
-    match n.toNat? with
-    | some n =>
-      if s.w.reserved then (s, "contract") else wOp { s with wresv := n } (NetbufWrite.reserve s.w n)
-    | none => (s, "bad-op")
-  | "w_consume" :: args | "w_consumep" :: args =>
-    match argBytes (toks.head! == "w_consumep") args with
-    | some d =>
-      if !s.w.reserved || d.length > s.wresv then (s, "contract") else wOp s (NetbufWrite.consume s.w d)
-    | none => (s, "bad-op")
-  | "w_write" :: args | "w_writep" :: args =>
-    match argBytes (toks.head! == "w_writep") args with
-    | some d =>
-      if s.w.reserved then (s, "contract") else wOp s (NetbufWrite.write s.w d)
-    | none => (s, "bad-op")
-  | ["spin"] =>
-    if s.w.reserved then (s, "contract") else
-    let (s, recs) := spinR s []
-    let (s, peer, fails, used) := spinW s [] 0 0
-    match s.bad with
-    | some b => (s, b)
-    | none =>
-      let r := if recs.isEmpty then "-" else ",".intercalate recs
-      (s, s!"spin r={r} f={fails} peer={peer.length}:{fmtBytes peer peer.length} sa={used} | {rl2 s.r} ; {wl2 s.w}")
-  | _ => (s, "bad-op")
-
-def main (_args : List String) : IO UInt32 := loop ({} : St) step
+def main (_args : List String) : IO UInt32 := loop ({} : NetbufStep.St) step
 
 end Percival.Driver.Netbuf
